@@ -429,11 +429,14 @@ func (x *fnExec) runBlock(p *Path, b *ssa.BasicBlock, idx int, deliver deliverFn
 			p.defers = &deferred{fn: fnv, args: args, next: p.defers}
 			continue
 		case *ssa.Go:
-			panic(e.abort("go statement not supported (%s)", x.fn))
+			fnv, args := x.callTarget(p, &in.Call)
+			if b, ok := in.Call.Value.(*ssa.Builtin); ok {
+				panic(e.abort("go statement on builtin %s", b.Name()))
+			}
+			e.spawn(p.st, fnv, args)
+			continue
 		case *ssa.Select:
 			panic(e.abort("select not supported (%s)", x.fn))
-		case *ssa.Send:
-			panic(e.abort("channel send not supported (%s)", x.fn))
 		case *ssa.DebugRef:
 			continue
 		}
